@@ -5,7 +5,8 @@ The builder turns `v := e`, `a if c else b`, `a and b` / `a or b` and chained co
 *before* the enclosing expression is evaluated ("hoisting").  That is observable exactly when an operand that Python
 evaluates earlier (a sibling to the left) is order-sensitive with respect to the hoisted part:
   hoist-order   the earlier operand makes an opaque call and the hoisted part makes one too (their order flips), or the
-                earlier operand reads a variable that the hoisted part assigns through `:=` (it sees the new value)
+                earlier operand reads a variable that the hoisted part assigns through `:=` (it sees the new value); an
+                earlier `v := e` counts as a read of v, because the builder leaves just the name v in its place
   chain-middle  a chained comparison whose middle operand makes a call or assigns (`a < g(x) < b` evaluates g twice)
 `tags(src)` returns the set of tags that apply anywhere in the program."""
 from __future__ import annotations
@@ -63,7 +64,8 @@ def _sensitive(earlier, later) -> bool:
     if _calls(earlier) and any(_calls(h) for h in hs):
         return True
     assigned = set().union(*[_walrus_targets(h) for h in hs])
-    return bool(_reads(earlier) & assigned)
+    # a `v := e` in the earlier operand is itself replaced by a later read of v, so its target counts as read
+    return bool((_reads(earlier) | _walrus_targets(earlier)) & assigned)
 
 
 def tags(src: str) -> set:
